@@ -391,3 +391,37 @@ Example ex_derived :
   reportb [[0; 1]; [2; 3]; [4; 0]] [(0, 2); (1, 1); (2, 1); (3, 1); (4, 1)] = true /\
   reportb [[0; 1]; [2; 3]; [4; 0]] [(0, 3); (1, 2); (2, 1); (3, 1); (4, 1)] = false.
 Proof. vm_compute. auto. Qed.
+
+(* ---------- the source's constants ---------- *)
+Lemma incr_by_one s k : incr_by 1 s k = incr s k.
+Proof.
+  induction s as [|[k' c] r IH]; [reflexivity|].
+  cbn [incr_by incr]. destruct (Nat.eqb k k'); [reflexivity|]. rewrite IH. reflexivity.
+Qed.
+
+Lemma fold_incr_by_one sel : forall s, fold_left (incr_by 1) sel s = fold_left incr sel s.
+Proof. induction sel as [|a sel IH]; intros s; [reflexivity|]. cbn [fold_left]. rewrite incr_by_one. apply IH. Qed.
+
+Theorem pstep_default s L cap : pstep false 0 1 0 s L cap = step s L cap.
+Proof.
+  unfold pstep, step. destruct L as [|a L]; [reflexivity|].
+  rewrite Z.add_0_r, fold_incr_by_one. reflexivity.
+Qed.
+
+Theorem prun_default : forall ops s, prun false 0 1 0 s ops = run s ops.
+Proof.
+  induction ops as [|[L cap] r IH]; intros s; [reflexivity|].
+  cbn [prun run]. rewrite pstep_default. destruct (step s L cap) as [sel s']. rewrite IH. reflexivity.
+Qed.
+
+(* each constant matters: with any one of them changed there is a history of three calls on one list that the checker rejects *)
+Theorem source_constants_matter :
+  let ops := map (fun c => ([0; 1; 2], c)) [2; 2; 2]%Z in
+  valid_runb [] ops (prun false 0 1 0 [] ops) = true /\
+  valid_runb [] ops (prun true 0 1 0 [] ops) = false /\
+  valid_runb [] ops (prun false 1 1 0 [] ops) = false /\
+  valid_runb [] ops (prun false (-1) 1 0 [] ops) = false /\
+  valid_runb [] ops (prun false 0 2 0 [] ops) = false /\
+  valid_runb [] ops (prun false 0 0 0 [] ops) = false /\
+  valid_runb [] ops (prun false 0 1 1 [] ops) = false.
+Proof. vm_compute. repeat split. Qed.
